@@ -77,6 +77,7 @@ COVER(g_np == 0 && OLD(WQ->lmq_len) == 2 && WQ->lmq_cap == 4 && g_wpoll0 && g_st
  * push0_pipe_ready (a pipe can take a message: first the OLDEST buffered message, else the FIRST blocked
  * sender's, else the pipe joins the ready list at the tail; a blocked sender whose message moves on is completed)
  * ===================================================================== */
+#define PR_OPEN (!g_px->closed)
 #define PR_L0 OLD(WQ->lmq_len)
 #define PR_A0 OLD(g_qa.n)
 #define PR_SENT_ON_PX (g_pipe_send_calls == OLD(g_pipe_send_calls) + 1 && g_pipe_send_pipe == g_px->pipe && g_pipe_send_aio == &g_px->aio_send)
@@ -93,21 +94,24 @@ PUSH_WQ_ASSIGNS PUSH_PL_ASSIGNS \
 __CPROVER_ensures(VP_NO_LOCK_HELD && VP_AIOQS_OK && LMQ_WF_SCALAR(WQ) && WQ_GEOM_SAME) \
 __CPROVER_ensures(g_pipe_close_calls == OLD(g_pipe_close_calls) && g_start_calls == OLD(g_start_calls) && g_pipe_recv_calls == OLD(g_pipe_recv_calls)) \
 /* buffered messages go first: the OLDEST one goes to this pipe, once; the rest keeps its order */ \
-__CPROVER_ensures(PR_L0 > 0 ==> (PR_SENT_ON_PX && g_pipe_send_msg == OLD(LMQ_VIEW(WQ, 0)) && g_px->aio_send.a_msg == OLD(LMQ_VIEW(WQ, 0)) && PL_SAME)) \
+__CPROVER_ensures((PR_OPEN && PR_L0 > 0) ==> (PR_SENT_ON_PX && g_pipe_send_msg == OLD(LMQ_VIEW(WQ, 0)) && g_px->aio_send.a_msg == OLD(LMQ_VIEW(WQ, 0)) && PL_SAME)) \
 /* ... and the FIRST blocked sender's message takes the freed slot at the TAIL; that sender completes with success, its aio no longer owns the message */ \
-__CPROVER_ensures((PR_L0 > 0 && PR_A0 > 0) ==> (WQ_SHIFTED(PR_L0) && LMQ_VIEW(WQ, WQ->lmq_len - 1) == (nni_msg *) g_p2 && PR_WAITER_DONE && OLD(g_qa.head)->a_msg == NULL)) \
-__CPROVER_ensures((PR_L0 > 0 && PR_A0 == 0) ==> (WQ_SHIFTED(PR_L0 - 1) && g_fin_calls == OLD(g_fin_calls) && g_qa.n == 0)) \
+__CPROVER_ensures((PR_OPEN && PR_L0 > 0 && PR_A0 > 0) ==> (WQ_SHIFTED(PR_L0) && LMQ_VIEW(WQ, WQ->lmq_len - 1) == (nni_msg *) g_p2 && PR_WAITER_DONE && OLD(g_qa.head)->a_msg == NULL)) \
+__CPROVER_ensures((PR_OPEN && PR_L0 > 0 && PR_A0 == 0) ==> (WQ_SHIFTED(PR_L0 - 1) && g_fin_calls == OLD(g_fin_calls) && g_qa.n == 0)) \
 /* nothing buffered but a sender is blocked (unbuffered hand-off): its message goes straight to this pipe */ \
-__CPROVER_ensures((PR_L0 == 0 && PR_A0 > 0) ==> (PR_SENT_ON_PX && g_pipe_send_msg == (nni_msg *) g_p2 && g_px->aio_send.a_msg == (nni_msg *) g_p2 && PR_WAITER_DONE && OLD(g_qa.head)->a_msg == NULL && WQ->lmq_len == 0 && PL_SAME)) \
+__CPROVER_ensures((PR_OPEN && PR_L0 == 0 && PR_A0 > 0) ==> (PR_SENT_ON_PX && g_pipe_send_msg == (nni_msg *) g_p2 && g_px->aio_send.a_msg == (nni_msg *) g_p2 && PR_WAITER_DONE && OLD(g_qa.head)->a_msg == NULL && WQ->lmq_len == 0 && PL_SAME)) \
 /* nothing to send: the pipe joins the ready list at the TAIL; nothing is sent, nobody completes */ \
-__CPROVER_ensures((PR_L0 == 0 && PR_A0 == 0) ==> (g_pipe_send_calls == OLD(g_pipe_send_calls) && g_fin_calls == OLD(g_fin_calls) && WQ->lmq_len == 0 && g_qa.n == 0 && g_px->aio_send.a_msg == OLD(g_px->aio_send.a_msg))) \
-__CPROVER_ensures((PR_L0 == 0 && PR_A0 == 0) ==> (g_np == 0 ? PUSH_PL_IS(1, g_px, g_px, g_px) : (g_np == 1 ? PUSH_PL_IS(2, g_pp0, g_px, g_px) : PUSH_PL_IS(3, g_pp0, g_pp1, g_px)))) \
+__CPROVER_ensures((PR_OPEN && PR_L0 == 0 && PR_A0 == 0) ==> (g_pipe_send_calls == OLD(g_pipe_send_calls) && g_fin_calls == OLD(g_fin_calls) && WQ->lmq_len == 0 && g_qa.n == 0 && g_px->aio_send.a_msg == OLD(g_px->aio_send.a_msg))) \
+__CPROVER_ensures((PR_OPEN && PR_L0 == 0 && PR_A0 == 0) ==> (g_np == 0 ? PUSH_PL_IS(1, g_px, g_px, g_px) : (g_np == 1 ? PUSH_PL_IS(2, g_pp0, g_px, g_px) : PUSH_PL_IS(3, g_pp0, g_pp1, g_px)))) \
 /* conservation: buffer + blocked senders + handed to pipes neither loses nor duplicates a message */ \
 __CPROVER_ensures(PUSH_HELD == g_held0) \
 __CPROVER_ensures(PUSH_KEEPS_INV) \
 /* C15 wake-up: after the call the socket is writable iff a pipe is ready or the buffer has room, whenever that held before */ \
-__CPROVER_ensures((g_wpoll0 && PR_L0 == 0 && PR_A0 == 0) ==> g_pollw) \
-COVER(PR_L0 == 4 && PR_A0 == 3 && g_wpoll0 && g_stable0) COVER(PR_L0 == 2 && PR_A0 == 0 && g_wpoll0 && g_stable0 && WQ->lmq_alloc == 0) COVER(PR_L0 == 0 && PR_A0 == 1 && g_wpoll0 && g_stable0) COVER(PR_L0 == 0 && PR_A0 == 0 && g_np == 2 && g_wpoll0 && g_stable0) COVER(PR_L0 == 0 && PR_A0 == 0 && g_np == 0 && g_wpoll0 && g_stable0 && WQ->lmq_cap == 0)
+__CPROVER_ensures((g_wpoll0 && PR_OPEN && PR_L0 == 0 && PR_A0 == 0) ==> g_pollw) \
+/* a CLOSED pipe (its last send completed just before it was closed; it is about to be freed) takes no message and \
+ * never gets on the ready list: nothing at all happens */ \
+__CPROVER_ensures(!PR_OPEN ==> (g_pipe_send_calls == OLD(g_pipe_send_calls) && g_fin_calls == OLD(g_fin_calls) && g_qa.n == PR_A0 && WQ_SAME && PL_SAME && g_pollw == OLD(g_pollw) && g_px->aio_send.a_msg == OLD(g_px->aio_send.a_msg))) \
+COVER(!PR_OPEN && PR_L0 == 1 && PR_A0 == 1 && g_np == 0) COVER(PR_OPEN && PR_L0 == 4 && PR_A0 == 3 && g_wpoll0 && g_stable0) COVER(PR_L0 == 2 && PR_A0 == 0 && g_wpoll0 && g_stable0 && WQ->lmq_alloc == 0) COVER(PR_L0 == 0 && PR_A0 == 1 && g_wpoll0 && g_stable0) COVER(PR_L0 == 0 && PR_A0 == 0 && g_np == 2 && g_wpoll0 && g_stable0) COVER(PR_L0 == 0 && PR_A0 == 0 && g_np == 0 && g_wpoll0 && g_stable0 && WQ->lmq_cap == 0)
 
 #ifndef PUSH_READY_LIGHT
 static void push0_pipe_ready(push0_pipe *p)
@@ -197,9 +201,15 @@ __CPROVER_requires(g_ci <= 3 && arg == PC_SEL && g_pp0->push == g_s && g_pp1->pu
 __CPROVER_requires(VP_AIOQS_PRE)
 __CPROVER_requires(PUSH_SOCK_PRE)
 __CPROVER_requires(PUSH_GHOST_EQ)
-__CPROVER_assigns(VP_PROTO_GHOST_LIST, VP_SYNC_GHOSTS)
+__CPROVER_assigns(g_pp0->closed, g_pp1->closed, g_pp2->closed, g_px->closed, VP_PROTO_GHOST_LIST, VP_SYNC_GHOSTS)
 PUSH_PL_ASSIGNS
 __CPROVER_ensures(VP_NO_LOCK_HELD && VP_AIOQS_OK && g_aio_close_calls == OLD(g_aio_close_calls) + 2)
+/* the pipe is marked closed (push0_pipe_ready ignores it from now on), no other pipe is */
+__CPROVER_ensures(((push0_pipe *) arg)->closed)
+__CPROVER_ensures(g_ci != 0 ==> g_pp0->closed == OLD(g_pp0->closed))
+__CPROVER_ensures(g_ci != 1 ==> g_pp1->closed == OLD(g_pp1->closed))
+__CPROVER_ensures(g_ci != 2 ==> g_pp2->closed == OLD(g_pp2->closed))
+__CPROVER_ensures(g_ci != 3 ==> g_px->closed == OLD(g_px->closed))
 __CPROVER_ensures((g_ci >= g_np) ==> PL_SAME)
 __CPROVER_ensures((g_ci == 0 && g_np > 0) ==> (PUSH_PL_IS(g_np - 1, g_pp1, g_pp2, g_pp2) && PUSH_NODE_IDLE(g_pp0)))
 __CPROVER_ensures((g_ci == 1 && g_np > 1) ==> (PUSH_PL_IS(g_np - 1, g_pp0, g_pp2, g_pp2) && PUSH_NODE_IDLE(g_pp1)))
@@ -242,6 +252,20 @@ __CPROVER_ensures(VP_NO_LOCK_HELD && VP_AIOQS_OK && g_qa.n == 0)
 __CPROVER_ensures(g_fin_calls == OLD(g_fin_calls) + OLD(g_qa.n) && (OLD(g_qa.n) > 0 ==> g_fin_last_rv == NNG_ECLOSED))
 __CPROVER_ensures(OLD(g_qa.n) > 0 ==> OLD(g_qa.head)->a_msg == (nni_msg *) g_p2)
 __CPROVER_ensures(WQ_SAME && PL_SAME && g_pipe_send_calls == OLD(g_pipe_send_calls) && g_pipe_close_calls == OLD(g_pipe_close_calls))
+;
+
+/* =====================================================================
+ * push0_sock_init: the initial state - unbuffered (depth 0 = always "full"), no ready pipe, so nothing can be
+ * accepted yet: the base case of PUSH_STABLE / PUSH_WPOLL_INV (the descriptor starts lowered: nni_pollable_init)
+ * ===================================================================== */
+#define SI_S ((push0_sock *) arg)
+static void push0_sock_init(void *arg, nni_sock *sock)
+__CPROVER_requires(__CPROVER_is_fresh(arg, sizeof(push0_sock)) && VP_NO_LOCK_HELD)
+/* model artefact: the list dispatcher (modules/sub/lists_post.h) recognises aio wait lists by their member offset */
+__CPROVER_requires(SI_S->pl.ll_offset != VP_AIO_OFF)
+__CPROVER_assigns(*SI_S)
+__CPROVER_ensures(VP_NO_LOCK_HELD && LMQ_WF_SCALAR(&SI_S->wq) && SI_S->wq.lmq_cap == 0 && SI_S->wq.lmq_len == 0 && SI_S->wq.lmq_alloc == 0 && SI_S->wq.lmq_msgs == &SI_S->wq.lmq_buf[0])
+__CPROVER_ensures(SI_S->pl.ll_offset == offsetof(push0_pipe, node) && SI_S->pl.ll_head.ln_next == &SI_S->pl.ll_head && SI_S->pl.ll_head.ln_prev == &SI_S->pl.ll_head)
 ;
 
 /* =====================================================================
